@@ -765,7 +765,8 @@ type c15Gen struct {
 
 var c15KeyAtoms = []string{"a", "k", "id", "name", "Z", "0", " ", "/", "//", "#", "*/", "/*", `\"`, `\\`, `\/`, `\n`, `\t`, `A`, "é", "😀", "@a", "{", "}", "[", "]", ":", ",", "-", "|", "'", "x y"}
 
-var c15NoteWords = []string{"note", "Description", "a b c", "it's", `"quoted"`, `say "hi`, "{braces}", "- dash", "@a", "* star", "a/b", "http://x.y/z", "é", `\`, "|", ",", "]", "}", "[", "{", "100%", "key: value", "// again", "/* open", "x*y", "1", "true", "null", "@a | @b"}
+var c15NoteWords = []string{"note", "Description", "a b c", "it's", `"quoted"`, `say "hi`, "{braces}", "- dash", "@a", "* star", "a/b", "http://x.y/z", "é", `\`, "|", ",", "]", "}", "[", "{", "100%", "key: value", "// again", "/* open", "x*y", "1", "true", "null", "@a | @b",
+	"déjà", "Å", "ух", "Р", "ok 😅", "nbsp\u00a0", "nel\u0085", "ls\u2028", "tab\there", "vt\v", "ff\f", "nul\x00", "é́", "日本"}
 
 var c15Rules = map[byte][]string{
 	'i': {`min: 0`, `max: 1000000`, `type: "integer"`, `min: 0, max: 999999`, `nullable: true`, `or: [{type: "integer"}, {type: "string"}]`, `const: true`, `min: 0, exclusiveMinimum: false`, `type: "any"`, `or: ["integer", "string"]`},
